@@ -82,7 +82,12 @@ Print Assumptions snapshot_between_chunks_refuted.
     are skipped until the read) and [LsSnapRead] (content := database file as
     it is + the live generation's frames up to walEndOffset), with arbitrary
     environment steps and syncs in between, in any session, for any of the
-    control flows, and with the one error exit "bump fails" ([LsBumpFail]).
+    control flows, and — since the continuation session — with EVERY error exit
+    of the checkpoint protocol ([LsFail], any control state; [LsBumpFail] is the
+    earlier special case), the death of the process at any instant ([LsKill]),
+    the strict post-checkpoint copy ([LsPostSync]) and checkpoint PRAGMAs that
+    come back busy ([LsCkpt] below the end, [LsCkptBusy]): the invariant step
+    [MachineSnap.sinv_step] covers all labels.
 
     [snapshot_matches_position]: the content of every snapshot read equals the
     restore of the level-0 chain at the position it advertises, for histories
